@@ -173,3 +173,18 @@ Example C14_converse_example :
   JArr [JObj [("$match", JObj [("ssn", JObj [("$in", JArr [JStr "REDACTED"; JStr "REDACTED"])]); ("city", JStr "Paris")])];
         JObj [("$facet", JObj [("f", JArr [JObj [("$match", JObj [("owner", JObj [("ssn", JArr [JObj [("n", JStr "REDACTED")]])])])]])])]].
 Proof. vm_compute. repeat split; reflexivity. Qed.
+
+(* ---------- where the full statement fails on the faithful model (known finding F30) ---------- *)
+(* Inside $vectorSearch.filter a literal under a matching name is KEPT when the stage's own `path` argument does not
+   match R (augmentOp turns the Redactable `filter` argument Exempt). Search stages are outside the theorems above;
+   this witness, replayed on the implementation, is the finding. *)
+Theorem C14_vectorsearch_filter_refuted :
+  let r := fun s => String.eqb s "name" in
+  let c := {| repl := "REDACTED"; nums := false; bools := false; ips := false; nss := false; eager := []; re := Some r |} in
+  exists v p, existsb r (jkeys v p) = true /\ jget v p = Some (JStr "secret") /\
+              jget (cmd_member current current_consts c (real_actions current_consts c None) false false "pipeline" v) p = Some (JStr "secret").
+Proof.
+  exists (JArr [JObj [("$vectorSearch", JObj [("index", JStr "i"); ("path", JStr "emb"); ("filter", JObj [("name", JObj [("$lt", JStr "secret")])])])]]), [0; 0; 2; 0; 0].
+  vm_compute. repeat split; reflexivity.
+Qed.
+Print Assumptions C14_vectorsearch_filter_refuted.
